@@ -711,5 +711,6 @@ func extractC13() *lean {
 		})
 	}
 	l.def("nutsIsCommittedNotFoundIsUncommitted", "Bool", c13Bool(nf), nf)
+	extractC13b(l) // request layer (c13b.go)
 	return l
 }
